@@ -965,7 +965,7 @@ JTAGS = {
     58: 'create_joint_distribution changed the value of an existing parameter',
 }
 JCORR = (51, 52, 56)
-JORACLE = {53: (JCORR, 251, 'C11-CJD-COV-PARAM-MISNAMED'), 59: (JCORR, None, None), 60: (JCORR, 252, 'C11-CJD-EMPTY-SELECTION-INDEXERROR'), 54: (JCORR, None, None), 55: (JCORR, None, None),
+JORACLE = {53: (JCORR, 251, 'C11-CJD-COV-PARAM-MISNAMED'), 59: (JCORR, None, None), 60: (JCORR, None, None), 54: (JCORR, None, None), 55: (JCORR, None, None),
            57: (JCORR, None, None), 58: (JCORR, None, None)}
 JIMPORTS = 'Base.PyData Base.Expr C11.Model C11.NumModel C11.JdModel C11.JdCheck'
 _JD_BASE = {}
